@@ -171,8 +171,11 @@ def step(ctx, op, p):
 
 
 def _hist_body(ops, ps, reuse_at, which):
-    import serif.alias_tracker as at
-    at._ALIAS_TRACKER._registry.clear()
+    try:
+        import serif.alias_tracker as at
+        at._ALIAS_TRACKER._registry.clear()
+    except Exception:
+        pass
     model = IdModel(reuse_at, which)
     sv.id = model
     stb.id = model
